@@ -20,7 +20,18 @@ def parseAtom (s : String) : Option PV :=
 def parseItems (body : String) : Option (List PV) :=
   if body.isEmpty then some [] else (body.splitOn ",").mapM parseAtom
 
+/-- `A[i1;i2;…]` (1-D) — items separated by `;`. -/
+def parseArr1 (body : String) : Option PV :=
+  if body.isEmpty then some (.arr []) else ((body.splitOn ";").mapM parseAtom).map PV.arr
+
+/-- `M[r1|r2|…]` (2-D) — rows separated by `|`, items by `;`. -/
+def parseArr2 (body : String) : Option PV :=
+  if body.isEmpty then some (.arr []) else ((body.splitOn "|").mapM parseArr1).map PV.arr
+
 def parsePV (s : String) : Option PV :=
+  if s.startsWith "A[" && s.endsWith "]" then parseArr1 ((s.drop 2).dropEnd 1).toString
+  else if s.startsWith "M[" && s.endsWith "]" then parseArr2 ((s.drop 2).dropEnd 1).toString
+  else
   if s.startsWith "L[" && s.endsWith "]" then
     (parseItems ((s.drop 2).dropEnd 1).toString).map PV.list
   else if s.startsWith "T(" && s.endsWith ")" then
@@ -36,5 +47,6 @@ partial def showPV : PV → String
   | .unbound => "UNBOUND"
   | .list l => "L[" ++ ",".intercalate (l.map showPV) ++ "]"
   | .tup l => "T(" ++ ",".intercalate (l.map showPV) ++ ")"
+  | .arr l => "A[" ++ ";".intercalate (l.map showPV) ++ "]"
 
 end Dsw.Py
